@@ -224,7 +224,7 @@ SeqSync(st1, hd, its, key, vst) ==
            part == SubSeq(p, Len(p) - MinProofLen(hd, key) + 1, Len(p))
        IN IF MTAdd(vst, hd, key, F(key, 0, RAt(its, key)), part) # "ok" THEN key
           ELSE SeqSync(st1, hd, its, key + 1, [vst EXCEPT !.full = @ \cup {part[j] : j \in 1..Len(part)}])
-SyncAll == /\ acc.len > 0 /\ acc.len <= 300
+SyncAll == /\ acc.len > 0 /\ acc.len <= 128
            /\ store' = FinalizeStore(acc, store)
            /\ UNCHANGED <<items, acc, pdata, pitems>>
            /\ Log([op |-> "sync", v |-> 0, n |-> 0, l |-> SeqSync(FinalizeStore(acc, store), Header(acc), items, 0, EmptyStore), res |-> "ok"])
